@@ -99,7 +99,9 @@ SendChangeBatch(u, t1, t2) == clientText[u] # "none" /\ t1 # t2
 \* the editor saves its buffer, then notifies
 SendSave(u) == clientText[u] # "none" /\ Start([kind |-> "save", c |-> C0, changed |-> FALSE, todo |-> <<>>, u |-> u, t |-> "disk", ver |-> sent + 1, pc |-> "read"])
                /\ disk' = [disk EXCEPT ![u] = clientText[u]] /\ UNCHANGED <<clientText, docText, published, cfgvars>>
-\* an add-to-dictionary command or a configuration change: the document is re-processed
+\* an add-to-file-dictionary command: the document is re-processed.  (An addition to the USER dictionary re-processes
+\* every open document since 0a59ac0; in this module it overlaps with every document the way a
+\* configuration change does - the dictionary itself is state of UserDict.tla.)
 SendRefresh(u) == clientText[u] # "none" /\ Start([kind |-> "refresh", c |-> C0, changed |-> FALSE, todo |-> <<>>, u |-> u, t |-> "?", ver |-> sent + 1, pc |-> "read"])
                   /\ UNCHANGED <<clientText, docText, published, disk, cfgvars>>
 \* the user changes a setting: the client stores it and announces it (the notification carries the settings)
